@@ -462,7 +462,14 @@ def coerce(value, t, structure):
         return structure(value, t)
     if origin in (list, typing.List):
         a = typing.get_args(t)
-        return [coerce(v, a[0] if a else typing.Any, structure) for v in value]
+        # equal JSON items become ONE shared instance (callers legitimately pass the same object several times)
+        cache, out = {}, []
+        for v in value:
+            key = json.dumps(v, sort_keys=True, default=repr)
+            if key not in cache:
+                cache[key] = coerce(v, a[0] if a else typing.Any, structure)
+            out.append(cache[key])
+        return out
     if isinstance(t, type):
         if issubclass(t, enum.Enum):
             return t(value)
